@@ -52,7 +52,7 @@ MORE = [
     KW_LE = r"<="'''),
     dict(id="string_greedy", props=["C08", "C07", "C05"], file=L,
          old=r'''@_(r"\".*?\"|\'.*?\'")''', new=r'''@_(r"\".*\"|\'.*\'")'''),
-    dict(id="comment_before_string", props=["C08", "C05"], file=L, old=None, new=None, special="comment_before_string"),
+    dict(id="comment_before_string", props=[], file=L, old=None, new=None, special="comment_before_string"),
     dict(id="int_as_float", props=["C05"], file=L, old="t.value = int(t.value)", new="t.value = float(t.value)"),
     dict(id="extra_production", props=["C06"], file=Y,
          old='''    @_("ID")
